@@ -289,6 +289,11 @@ def run(pid, mod, tier, seed, t0):
             broken.append({'kind': 'translator-refused', 'what': 'gen_%s' % g, 'detail': out.strip()[-600:]})
         elif rc != 0:
             raise Infra('generator gen_%s failed:\n%s' % (g, out[-3000:]))
+    # 1b. hand models are valid for the source text they were written against
+    import pins as pinmod
+    for spec, old, cur in pinmod.changed(pid, getattr(mod, 'PINS', []), REPO):
+        broken.append({'kind': 'hand-model-pin', 'what': spec,
+                       'detail': {'pinned': old, 'current': cur, 'why': 'source of a hand-modelled definition changed; model not re-validated'}})
     # 2. build
     mods = list(getattr(mod, 'LEAN_MODULES', []))
     drivers = list(getattr(mod, 'LEAN_DRIVER_MODULES', []))
@@ -336,7 +341,7 @@ def run(pid, mod, tier, seed, t0):
     else:
         failed = set(b['what'] for b in broken if b['kind'] == 'lean-obligation')
         discharged = len([n for n in obligations if n.split('.')[-1] not in failed and n not in failed])
-        if any(b['kind'] != 'lean-obligation' for b in broken):
+        if any(b['kind'] not in ('lean-obligation', 'hand-model-pin') for b in broken):
             discharged = 0
     # 4. correspondence
     corr = {'cases': 0, 'disagreements': [], 'stats': {}}
